@@ -311,6 +311,21 @@ def audit_unsafe(prog, b, name):
             if rv["k"] == "cast" and "NotNone" in rv["ty"] and rv["kind"].startswith("PtrToPtr"):
                 casts.append((bb, si))
         if not casts:
+            # `self.is_some().then(|| unsafe { cast })`: the cast lives in a closure that only runs when self is Some
+            for c in prog.closures_of(b):
+                ccasts = [(bb, si) for bb, si, s in c.assigns() if s["rv"]["k"] == "cast" and "NotNone" in s["rv"]["ty"] and s["rv"]["kind"].startswith("PtrToPtr")]
+                if not ccasts:
+                    continue
+                tg = then_guard(prog, c)
+                if tg is None or tg[0] is not b:
+                    return False, "the cast to NotNone sits in a closure that is not the body of `cond.then(..)` in this function"
+                _parent, cond, neg = tg
+                okc = isinstance(cond, tuple) and cond[0] == "call" and cond[3] and strip(cond[3][0])[:2] == ("param", 1) and \
+                    ((cond[1] == "is_some" and not neg) or (cond[1] == "is_none" and neg))
+                if not okc:
+                    return False, "`self as *const NotNone<_>` runs under `%s`, not under self.is_some()" % fmt(cond)[:60]
+                return True, "cast to &NotNone only inside `self.is_some().then(..)`"
+        if not casts:
             return False, "no pointer cast to NotNone found"
         for bb, si in casts:
             good = False
@@ -371,6 +386,30 @@ def audit_unsafe(prog, b, name):
 
 # ------------------------------------------------------------------------------------- R11 (NotNone)
 
+def then_guard(prog, b):
+    """b is the closure of `cond.then(|| ..)`: it only runs when cond is true → (parent body, deep-stripped cond expression,
+    negated?) or None"""
+    if not b.is_closure:
+        return None
+    site = prog.closure_site(b.key)
+    if site is None:
+        return None
+    parent = site[0]
+    me = ("agg", "closure", b.key)
+    for cbb, ct in parent.calls():
+        if callee_name(ct) != "then":
+            continue
+        args = parent.call_arg_exprs(cbb)
+        if len(args) == 2 and isinstance(strip(args[1]), tuple) and strip(args[1])[:3] == me:
+            cond = strip(args[0])
+            neg = False
+            while isinstance(cond, tuple) and cond[0] == "unop" and cond[1] == "Not":
+                neg = not neg
+                cond = strip(cond[2])
+            return parent, cond, neg
+    return None
+
+
 def rule_r11_notnone(ctx, prog, rule="R11"):
     n = 0
     for b in prog.bodies.values():
@@ -406,6 +445,15 @@ def rule_r11_notnone(ctx, prog, rule="R11"):
                             some_t = [tgt for v, tgt in st["arms"] if v == 1]
                             if some_t and branch_dominates(b, sb, some_t[0], bb):
                                 good = True
+            if not good:
+                # `value.is_some().then(|| NotNone(value))`: the constructing closure runs only when the captured value is Some
+                tg = then_guard(prog, b)
+                if tg is not None:
+                    parent, cond, neg = tg
+                    from .rules_layout import up as _up
+                    pb_, pe_ = _up(prog, b, payload)
+                    if isinstance(cond, tuple) and cond[0] == "call" and cond[3] and strip(cond[3][0]) == strip(pe_) and pb_ is parent:
+                        good = (cond[1] == "is_some" and not neg) or (cond[1] == "is_none" and neg)
             ctx.ob(rule, key, good, where, "payload `%s` is known Some on every path to the construction" % fmt(payload) if good else
                    "NotNone built from `%s` without a dominating is_some()/Some-arm check: the not-None invariant "
                    "that unreachable_unchecked relies on can be broken" % fmt(payload), what="NotNone built from unchecked Option")
